@@ -116,7 +116,8 @@ Close Scope N_scope.
 
 (* ------------------------------------------------------------------ trusted-assumption flows (C32) *)
 Open Scope N_scope.
-Definition c_maxkey (curr new : val) : val := if kf curr <? kf new then new else curr.
+(* get_max_key: `if new.0 > curr.0 { *curr = new }` for K: Ord *)
+Definition c_maxkey (curr new : val) : val := if vgtb (vfst new) (vfst curr) then new else curr.
 Definition u_max := BReduce c_max (BWeaken (BBatch 0)).
 Definition u_min := BReduce c_min (BWeaken (BBatch 0)).
 Definition u_count := BFold (VN 0) c_count (BWeaken (BBatch 0)).
@@ -159,3 +160,22 @@ Definition chk33_first (ticks : list (list (list val))) (impl : list (list val))
            nodup_b (map vfst (concat impl))).
 Definition m_keyed_first_emit : list string :=
   ["for_each"; "source_stream"; "scan<'static>"; "flat_map"; "map"]%string.
+
+(* ------------------------------------------------------------------ distinct-keys sites (C32) *)
+(* HashMap::insert of an entry *)
+Definition ins_entry (m : list (val * val)) (e : val) : list (val * val) :=
+  kupd (fun _ => vsnd e) (vfst e) m.
+Definition into_map (es : list val) : list (val * val) := fold_left ins_entry es [].
+(* cross_product_nested_loop(keys, items).into_keyed() *)
+Definition nested (ks items : list val) : list val := flat_map (fun k => map (VP k) items) ks.
+Fixpoint list_val (l : list val) : val := match l with [] => VU | x :: r => VP x (list_val r) end.
+(* u_into_singleton: keyed reduce, into_singleton, then the map sorted into a Vec *)
+Definition u_into_singleton_fun (xs : list val) : list val :=
+  [list_val (vsort (kentries (kreduce_list (vn2 (fun a v => (a * 3 + v) mod 1009)%N) xs)))].
+(* u_repeat_with_keys: items (input b) repeated for every key of the keyed reduce of input a *)
+Definition u_repeat_fun (a b : list val) : list val :=
+  nested (map fst (kreduce_list (vn2 (fun a v => (a * 3 + v) mod 1009)%N) a)) b.
+Definition chk_fun2 (exact : bool) (F : list val -> list val -> list val)
+  (ticks : list (list (list val))) (impl : list (list val)) : N :=
+  let m := map (fun t => F (nth 0 t []) (nth 1 t [])) ticks in
+  verdict (ticks_agree exact impl m) (ticks_agree exact impl m).
